@@ -242,13 +242,13 @@ Usage: ggqlgen [options] [<schema-file>...]
 			}
 			if e.types[t.Name()] {
 				buf = append(buf, '\n')
-				buf = append(buf, t.SDL(true)...)
+				buf = append(buf, rawString(t.SDL(true))...)
 			}
 		}
 		for _, t := range root.Directives() {
 			if !t.Core() && e.types["@"+t.Name()] {
 				buf = append(buf, '\n')
-				buf = append(buf, t.SDL(true)...)
+				buf = append(buf, rawString(t.SDL(true))...)
 			}
 		}
 		buf = append(buf, "`\n"...)
@@ -289,6 +289,13 @@ Usage: ggqlgen [options] [<schema-file>...]
 	if verbose {
 		fmt.Println(root.SDL(false, true))
 	}
+}
+
+// rawString makes s safe for the inside of a Go raw string literal. A back
+// quote can not be written in one so the literal is closed, the back quote
+// added as an interpreted string and the literal opened again.
+func rawString(s string) string {
+	return strings.ReplaceAll(s, "`", "` + \"`\" + `")
 }
 
 // getSDL returns the sdl as a byte slice or an error. If the file path has a
